@@ -76,6 +76,8 @@ THEOREMS = [
     "Verif.C15.gradient_continuous_correct_tau",
     "Verif.C15.gradient_discrete_correct_amp",
     "Verif.C15.gradient_discrete_correct_tau",
+    "Verif.C15.gradObs_correct_amp",
+    "Verif.C15.gradObs_correct_tau",
     "Verif.C15.jacobian_is_gradient_amp",
     "Verif.C15.jacobian_is_gradient_tau",
     "Verif.C15.mask_inactive_within_bounds",
@@ -109,7 +111,18 @@ RULE = (
     "group over two kymographs, ambiguous dwells kept and excluded), 'validate' (malformed constructor "
     "arguments). Non-trivial: likelihood case with >=2 components or a finite/discretised window; fit; constraint with "
     "a fixed entry or an error; extraction that drops at least one track and keeps at least one, or raises; edit sequence in "
-    "which an edit changed the tracks in the group and a later analysis handed rows over; rejected validation."
+    "which an edit changed the tracks in the group and a later analysis handed rows over; rejected validation. "
+    "Deepening round D: 'likwin' (likelihood and components at parameters inside the lifetime search bounds where the window "
+    "probability of some observation is below the range of doubles: two groups of observation limits whose minimum times "
+    "differ by a factor 160-2000, largest tmin/tau between 745 and 5000; small scope: 1-3 components x 2 ratios x 3 "
+    "windows x continuous/discretised; non-trivial when exp(-tmin/tau) underflows), 'assemble' (_exponential_mle_optimize "
+    "with scipy.optimize.minimize replaced by a stand-in that records start vector, bounds, constraint and the gradient "
+    "callback's answer at a probe point, answers the probe and lets the cost callback see another point last: every kind of "
+    "fixed-parameter mask, amplitudes in 64ths incl. specifications that cannot sum to one, initial_guess given or left out; "
+    "small scope: every mask for n <= 2 x 3-4 amplitude vectors x continuous/discretised x tmax finite/inf; non-trivial "
+    "when something is fixed or n >= 2), 'fbt' (fit_binding_times with n_components in 0..3 and observed_minimum / "
+    "discrete_model given or left out, constructor arguments and warnings recorded; small scope: 4 groups x 4 x 2 x 3 x 3), "
+    "small-scope fits (1-2 components x continuous/discretised x scalar/two windows x tmax finite/inf on quantile data)."
 )
 TRUSTED = [
     "RealLike formulas are executed at Float by the driver and compared with NumPy doubles within rel 1e-9 of a "
@@ -2863,7 +2876,7 @@ def cases(tier, rng):
 
     # ---- seeded random streams
     sizes = {"lik": 260, "fit": 140, "constraint": 400, "extract": 500, "extract-seq": 300, "validate": 60, "likwin": 120, "assemble": 250, "fbt": 150} if quick else \
-            {"lik": 4000, "fit": 2500, "constraint": 6000, "extract": 8000, "extract-seq": 5000, "validate": 600, "likwin": 1500, "assemble": 4000, "fbt": 2500}
+            {"lik": 4000, "fit": 2500, "constraint": 6000, "extract": 8000, "extract-seq": 5000, "validate": 600, "likwin": 800, "assemble": 2000, "fbt": 1200}
     # ---- small scope: window probability below the range of doubles (the factored normalisation), all combinations
     for amps, taus in (([1.0], [0.001]), ([0.25, 0.75], [0.001, 0.01]), ([0.5, 0.25, 0.25], [0.01, 0.001, 0.1])):
         for lo2 in (1.0, 4.0):
